@@ -29,8 +29,8 @@ ASSUMPTIONS = ["no fault kind applies to this property; simulation contributes t
 PROBES = ["bulk_bounds_overlapping_known", "failed_precondition", "op_on_copy", "op_on_negation", "reset_after_bounds",
           "handles_3plus"]
 TIERS = {
-    "quick": {"runs": 20000, "wall": 40, "batch": 16, "shrink_s": 40},
-    "thorough": {"runs": 1500000, "wall": 600, "batch": 32, "shrink_s": 120},
+    "quick": {"runs": 80000, "wall": 40, "batch": 48, "shrink_s": 40},
+    "thorough": {"runs": 20000000, "wall": 900, "batch": 64, "shrink_s": 120},
 }
 WILD = object()
 
